@@ -162,3 +162,58 @@ UNITS.append(U(name='htp_connp_RES_FINALIZE_probe_conserves', props=['C03', 'C06
 
 # (a two-run relational unit `S(whole line) == S(first k bytes) ; real req_buffer ; S(rest)` for htp_connp_REQ_LINE was written and does not finish:
 #  symbolic cut position 240 s then solver errors under memory pressure, enumerated cut positions > 600 s.  Not delivered; see DESIGN section 8.2.)
+
+# ---- C10: the cap on a header assembled from folded lines (HTP_MAX_HEADER_FOLDED), for EVERY pending length ------------------------------
+FOLD_H = r'''
+#ifndef VNATIVE
+void htp_log(htp_connp_t *connp, const char *file, int line, enum htp_log_level_t level, int code, const char *fmt, ...) { }
+#endif
+static int fold_add_calls, fold_dup_calls, fold_processed; static size_t fold_add_len; static unsigned char fold_add_bytes[N]; static const bstr *fold_add_dst;
+bstr *v_model_dup_mem(const void *data, size_t len) { fold_dup_calls++; return NULL; }
+/* appending to the pending header: logged; the pending object itself is a bare bstr header whose len is SYMBOLIC (its payload is never touched) */
+bstr *v_model_add_mem(bstr *destination, const void *data, size_t len) {
+  fold_add_calls++; fold_add_dst = destination; fold_add_len = len;
+  for (size_t i = 0; i < N; i++) if (i < len) fold_add_bytes[i] = ((const unsigned char *) data)[i];
+  return destination; }
+static htp_status_t stub_process_header(htp_connp_t *connp, unsigned char *data, size_t len) { fold_processed++; return HTP_OK; }
+typedef struct { unsigned char line[N]; size_t pending; } vin_t;
+void HARNESS(void) { VIN(vin_t);
+  /* one FOLDED continuation line: starts with SP or HT, its only LF is the last byte, something in front of the line ending */
+  for (int i = 0; i + 1 < N; i++) VASSUME(in.line[i] != '\n' && in.line[i] != '\r' && in.line[i] != 0);
+  VASSUME(in.line[N - 1] == '\n' && (in.line[0] == ' ' || in.line[0] == '\t'));
+#ifdef NO_COLON
+  for (int i = 0; i < N; i++) VASSUME(in.line[i] != ':');     /* response side: a continuation with a colon makes the state search the pending header's payload (not modelled here) */
+#endif
+  static htp_connp_t C; static htp_tx_t TX; static htp_cfg_t CFG;
+  htp_connp_t *c = &C; htp_tx_t *tx = &TX; htp_cfg_t *cfg = &CFG;
+  unsigned char *chunk = malloc(N); bstr *pend = malloc(sizeof(bstr));
+  if (!chunk || !pend) { free(chunk); free(pend); return; }
+  memcpy(chunk, in.line, N);
+  pend->len = in.pending; pend->size = in.pending; pend->realptr = NULL;              /* ANY pending length, below or above the cap */
+  cfg->field_limit_hard = 1000; cfg->server_personality = HTP_SERVER_GENERIC;
+  cfg->process_request_header = stub_process_header; cfg->process_response_header = stub_process_header;
+  tx->cfg = cfg; tx->connp = c; tx->request_progress = HTP_REQUEST_HEADERS; tx->response_progress = HTP_RESPONSE_HEADERS;
+  c->cfg = cfg; c->DIR_tx = tx; c->DIR_status = HTP_STREAM_DATA; c->DIR_header = pend;
+  c->DIR_current_data = chunk; c->DIR_current_len = N;
+  fold_add_calls = 0; fold_dup_calls = 0; fold_processed = 0;
+  htp_status_t rc = STATE_FN(c);
+  VASSERT(rc == HTP_DATA_BUFFER, "after a folded line at the chunk end the state waits for more data");
+  VASSERT(fold_processed == 0 && fold_dup_calls == 0 && c->DIR_header == pend, "the pending header stays pending (the next line may be another continuation)");
+  VASSERT(fold_add_calls == (in.pending < HTP_MAX_HEADER_FOLDED ? 1 : 0), "a continuation is appended iff the pending header is below HTP_MAX_HEADER_FOLDED: pending' <= cap - 1 + one line (itself <= field_limit_hard)");
+  if (fold_add_calls == 1) {
+    VASSERT(fold_add_dst == pend && fold_add_len <= N - 1, "the appended range is (part of) this line");
+    VASSERT(fold_add_len >= 1 && fold_add_bytes[fold_add_len - 1] != '\n', "the line ending is not appended");
+  }
+  VASSERT(c->DIR_current_read_offset == N && c->DIR_current_consume_offset == N && c->DIR_buf == NULL, "the line was consumed, nothing stays buffered");
+  free(pend); free(chunk);
+  CANARY(); }'''
+for d, fn, src in (('in', 'htp_connp_REQ_HEADERS', 'htp_request.c'), ('out', 'htp_connp_RES_HEADERS', 'htp_response.c')):
+    UNITS.append(U(name='%s_folded_cap' % fn, props=['C10', 'C01'], kind='bounded', src=[src], link=['htp_util.c', 'bstr.c', 'htp_hooks.c', 'htp_list.c'],
+                   replay='vin', pre='#define bstr_dup_mem v_model_dup_mem\n#define bstr_add_mem v_model_add_mem', harness=FOLD_H.replace('DIR', d).replace('STATE_FN', fn),
+                   defs={'quick': dict({'N': 4}, **({'NO_COLON': 1} if d == 'out' else {})), 'thorough': dict({'N': 6}, **({'NO_COLON': 1} if d == 'out' else {}))}, min_obl=30, timeout=(600, 2400),
+                   flags_add=['--unwind', '10', '--unwinding-assertions'], flags_del=['--unsigned-overflow-check'], solver='--sat-solver cadical',
+                   bound=('continuation lines without a colon; ' if d == 'out' else '') + 'one folded continuation line of exactly N bytes (quick 4, thorough 6); the length of the pending header is an UNBOUNDED symbolic size_t',
+                   sub='folded-header cap of %s: with a pending header of ANY length, a continuation line is appended iff the pending length is below HTP_MAX_HEADER_FOLDED (102400), '
+                       'so an assembled header never exceeds cap - 1 + one line; beyond the cap the line is dropped (warning), never an overflow' % fn,
+                   assumes=['bstr_add_mem replaced by a logging model; the pending header is a bare bstr header with symbolic len (its payload is never read on this path)',
+                            'cfg->process_*_header replaced by a counting stub']))
